@@ -439,7 +439,13 @@ func (s *controlledSelector) HandleSuccessResponse(
 
 	pair.state = CandidatePairStateSucceeded
 	s.log.Tracef("Found valid candidate pair: %s", pair)
-	if pair.nominateOnBindingSuccess {
+	if value := pair.nominationValueOnBindingSuccess; pair.nominateOnBindingSuccess && value != nil {
+		// Deferred renomination: the nomination value decides, not the pair priority,
+		// unless a newer nomination has been accepted in the meantime.
+		if s.lastNomination != nil && *value == *s.lastNomination && s.agent.getSelectedPair() != pair {
+			s.agent.setSelectedPair(pair)
+		}
+	} else if pair.nominateOnBindingSuccess {
 		if selectedPair := s.agent.getSelectedPair(); selectedPair == nil ||
 			(selectedPair != pair &&
 				(!s.agent.needsToCheckPriorityOnNominated() || selectedPair.priority() <= pair.priority())) {
@@ -507,6 +513,7 @@ func (s *controlledSelector) HandleBindingRequest(message *stun.Message, local, 
 			// candidate pair state to Failed, and set the checklist state to
 			// Failed.
 			pair.nominateOnBindingSuccess = true
+			pair.nominationValueOnBindingSuccess = nominationValue
 		}
 	}
 
